@@ -487,6 +487,11 @@ def comprehension(eng, node, st, fr, kind):
             )
             yield st1, res
             continue
+        if items is None and kind == "gen" and getattr(eng, "opaque_message_genexprs", False):
+            # a filtered generator expression over a symbolic iterable that only feeds an error message: neither its
+            # elements nor exceptions raised while formatting them are modelled (the pack lists this as an assumption)
+            yield st1, SV(V.fresh_val("message_parts"))
+            continue
         if items is None:
             raise Unsupported(f"comprehension over symbolic iterable at line {node.lineno}")
         # comprehension scope: reuse the frame, restore the target names afterwards
